@@ -239,6 +239,24 @@ def gen_ops(r, cfg=None):
                 ops.append(["wait", r.choice([1, 3, 7, 8, 12, 20])])
             ops.append(["mstart"])
 
+    def held_stop():
+        # a stop request for the game mode whose mode_m1_stopping queue event is held (an outro), mostly with the ball
+        # draining shortly afterwards - the hold outlasting the drain - and requests arriving before the release
+        ops.append(["mstoph"])
+        for _ in range(r.choice([0, 0, 1, 2])):
+            ops.append(["wait", r.choice([1, 2, 4, 5])] if r.random() < 0.4 else dev_op())
+        if r.random() < 0.75:
+            ops.append(["drain"] if r.random() < 0.8 else ["drainw", r.choice(POSITIONS), r.random() < 0.5])
+            for _ in range(r.choice([0, 1, 2, 3, 5])):
+                k3 = r.random()
+                ops.append(dev_op() if k3 < 0.6 else ["wait", r.choice([1, 3, 4, 8, 9])] if k3 < 0.8 else
+                           ["add", r.choice(INT_VARS), r.choice(ADD_VALUES)] if k3 < 0.87 else
+                           [r.choice(["set", "seta"]), r.choice(INT_VARS), r.choice(SET_VALUES)])
+        if r.random() < 0.9:
+            ops.append(["mrel"])
+            if not auto and r.random() < 0.7:
+                ops.append(["mstart"])
+
     for _ in range(n):
         k = r.random()
         if k < 0.30:
@@ -282,8 +300,12 @@ def gen_ops(r, cfg=None):
             ops.append(["extra"])
         elif k < 0.80:
             ops.append([r.choice(["mstop", "mstart", "mstart"])])
-        elif k < 0.94:
+        elif k < 0.895:
             turn_change()
+        elif k < 0.935:
+            held_stop()
+        elif k < 0.94:
+            ops.append(["mrel"])
         elif k < 0.96:
             ops.append(["addplayer"])
         elif k < 0.98:
@@ -309,14 +331,23 @@ def tok(v):
     return "?" + type(v).__name__
 
 
-def model_line(op, fired=None, held=False):
+VP_OPS = ("add", "vset", "addp", "setp", "madd", "mset")     # requests that go through the variable_player of mode `mv`
+
+
+def model_line(op, fired=None, held=False, ended=False):
     k = op[0]
+    if ended and k in VP_OPS:
+        return "wait 0"         # the mode holding the variable_player entries has ended with the ball: nobody listens
     if k in ("start", "addplayer", "drain", "endgame"):
         return k
     if k == "mstop":
         return "modestop"
     if k == "mstart":
         return "modestart"
+    if k == "mstoph":
+        return "modestophold"
+    if k == "mrel":
+        return "release"
     if k == "drainw":
         if fired in POS_AFTER:
             # the mode starts where the request arrives; a held queue event there is released one time unit later
@@ -425,6 +456,17 @@ class Run:
             m.events.add_handler(ev, lh, priority=2000000)
         self.mode_started_at = None
         self.in_pause_window = 0
+        self.hold_arm = False       # the next mode_m1_stopping queue event is to be held
+        self.held_q = None          # the held queue event (released by the op `mrel`, never by a timer: no same-instant race)
+        self.end_behind_hold = 0    # ball ends requested while the stop of the game mode was held
+        self.ending = False         # ... and one of them is waiting now
+
+        def stopping_hook(queue=None, **kwargs):
+            if self.hold_arm and queue is not None and self.held_q is None:
+                self.hold_arm = False
+                queue.wait()
+                self.held_q = queue
+        m.events.add_handler("mode_m1_stopping", stopping_hook, priority=2000000)
 
         def ms(**kwargs):
             self.mode_started_at = vm_now()
@@ -502,18 +544,34 @@ class Run:
                 vm.post("sg_rot")
             elif k == "mstop":
                 vm.post("stop_m1")
+            elif k == "mstoph":
+                # a stop request whose mode_m1_stopping queue event is held (an "outro") until the op `mrel`
+                if self.held_q is None:
+                    self.hold_arm = True
+                    vm.post("stop_m1")
+                    self.settle()
+                    self.hold_arm = False
+            elif k == "mrel":
+                self.ending = False
+                if self.held_q is not None:
+                    q, self.held_q = self.held_q, None
+                    q.clear()
             elif k == "mstart":
                 vm.post("start_m1")
             elif k in ("drain", "drainw"):
-                if k == "drainw":
+                if self.held_q is not None:
+                    self.end_behind_hold += 1       # the ball end has to wait for the held stop (no start request armed)
+                    self.ending = True
+                elif k == "drainw":
                     self.arm = (op[1], op[2])
                 for _ in range(m.game.balls_in_play):
                     r = tc.post_relay_event_with_params("ball_drain", balls=1)
                     m.playfield.balls -= r["balls"]
                     m.playfield.available_balls -= r["balls"]
             elif k == "endgame":
-                if m.game.player.extra_balls:
-                    return "skip"       # end_game() with an extra ball pending is C06's business (D20), not this property's
+                if m.game.player.extra_balls or self.held_q is not None:
+                    return "skip"       # end_game() with an extra ball pending is C06's business (D20), not this property's;
+                                        # nor is a game end behind a held mode stop
                 m.game.end_game()
                 self.settle()
                 m.playfield.balls = 0
@@ -655,6 +713,9 @@ class Oracle:
         self.counts = {}
         self.turns = 0
         self.mode_on = False    # the game mode runs (reference rule: from its start request to ball end / stop request)
+        self.hold = False       # a stop of the game mode was requested and its mode_m1_stopping queue event is held: the
+                                # mode keeps running (for the player who is up) until the release
+        self.end_pending = False    # a ball end was requested behind the held stop: it waits for the release
 
     def fail(self, sig, **d):
         self.bad.append((sig, d))
@@ -686,6 +747,33 @@ class Oracle:
         if crashed:
             self.fail(crashed + ":" + k, op=op)
             return
+        # ---- a held stop (reference rule): the mode runs on until the release; a ball end behind it waits and then
+        # happens as a whole at the release; stop / start requests meanwhile do nothing
+        if not run.players():
+            self.hold = self.end_pending = False
+        if k == "mstoph":
+            if self.mode_on and not self.hold and cur_before is not None:
+                self.hold = True
+                self.count("stop_held")
+            k = "nop"
+        elif k == "mrel":
+            if self.hold:
+                k = "drain" if self.end_pending else "mstop"
+                self.count("release_with_ball_end" if self.end_pending else "release_plain")
+                self.hold = self.end_pending = False
+            else:
+                k = "nop"
+        elif self.hold and k in ("drain", "drainw"):
+            self.end_pending = True
+            self.count("ball_end_behind_held_stop")
+            k = "nop"
+        elif self.hold and k in ("mstop", "mstart"):
+            k = "nop"
+        elif self.end_pending and k in VP_OPS:
+            self.count("variable_player_after_ball_end")
+            k = "nop"           # the mode `mv` with the variable_player entries ended with the ball (it is not held)
+        elif self.hold:
+            self.count("op_during_held_stop")
         players = run.players()
         cur = run.cur()
         expected_events = []
@@ -897,6 +985,7 @@ def execute_unguarded(cfg, ops, model):
             cur0 = run.cur()
             pl0 = run.players()
             ball0 = (cur0, pl0[cur0 - 1].vars.get("ball"), pl0[cur0 - 1].vars.get("extra_balls", 0)) if cur0 else None
+            ended0 = run.ending
             cr = run.act(op)
             if cr == "skip":
                 continue
@@ -910,7 +999,7 @@ def execute_unguarded(cfg, ops, model):
                     stats.get("start_" + ("before" if run.fired in POS_BEFORE else "window" if run.fired in POS_WINDOW
                                           else "after" if run.fired else "not_reached"), 0) + 1
             if model is not None:
-                line = model_line(op, run.fired, run.held)
+                line = model_line(op, run.fired, run.held, ended0)
                 comps.append((line, run.obs(), model.ask(line)))
         stats["turns"] = orc.turns
         stats["counts"] = orc.counts
